@@ -17,7 +17,9 @@
 // ORDER/LIMIT/tz tail are the user's; (4) the queries of a list do not share state;
 // (5) a query naming an undeclared db/rp is rejected, and so is one that names a database
 // but omits the retention policy ("db"..m reads the database's default retention policy,
-// which no declaration covers).
+// which no declaration covers); a statement with a subquery source (one or two levels,
+// declared and undeclared measurements inside) may be refused, but if it is accepted every
+// measurement at any depth of every emitted query must be a declared pair.
 //
 // Unit Live (live_test.go): StartBatching against a fake InfluxDB; every observed live query
 // must be exactly the query BatchQueries returns for the same tick. Unit LiveStall: the same
@@ -102,7 +104,16 @@ type Src struct {
 	RP    string `json:"rp"`
 	Name  string `json:"name"`
 	Regex bool   `json:"regex,omitempty"` // Name is a regular expression
-	Form  string `json:"form"`            // full | norp ("db".."m") | bare (m)
+	Form  string `json:"form"`            // full | norp ("db".."m") | bare (m) | sub (a subquery: Sub)
+	Sub   *SubQ  `json:"sub,omitempty"`
+}
+
+// SubQ is a subquery used as a source: FROM (SELECT Fields FROM Sources [WHERE ...] [GROUP BY ...]).
+type SubQ struct {
+	Fields  string `json:"fields"`
+	Sources []Src  `json:"sources"` // measurements and (one level deeper) subqueries
+	Where   string `json:"where,omitempty"`
+	GroupBy string `json:"groupby,omitempty"`
 }
 
 type Case struct {
@@ -132,7 +143,7 @@ type Case struct {
 }
 
 const rule = "rapid: InfluxQL SELECT (fields x sources x WHERE tree depth<=4 over AND/OR/parens, tag/field/arith/regex comparisons, user time predicates) x " +
-	"period/every|cron/offset/align/groupBy/fill/alignGroup x declared dbrps and FROM clause (declared pair | undeclared pair | declared database, other or omitted retention policy | no database) x span [start,stop] with generated phase; " +
+	"period/every|cron/offset/align/groupBy/fill/alignGroup x declared dbrps and FROM clause (declared pair | undeclared pair | declared database, other or omitted retention policy | no database | subquery of depth 1-2 over such sources, alone or beside a measurement) x span [start,stop] with generated phase; " +
 	"non-trivial = the WHERE tree has an OR at its top level or a user time predicate (and the task issues >= 1 query); distinct by case hash"
 
 // ------------------------------------------------------------------ reference schedule
@@ -392,34 +403,72 @@ func genSources(t *rapid.T, c *Case, onlyDeclared bool) {
 	}
 	nsrc := 1 + wpick(t, "twoSources", 4, 1)
 	for i := 0; i < nsrc; i++ {
-		var s Src
-		kind := 0
-		if !onlyDeclared {
-			kind = wpick(t, "srcKind", 16, 1, 1, 1)
+		w := []int{16, 1, 1, 1}
+		if onlyDeclared {
+			w = []int{1}
 		}
-		switch kind {
-		case 0:
-			d := c.Declared[rapid.IntRange(0, ndecl-1).Draw(t, "srcDecl")]
-			s.DB, s.RP = d.DB, d.RP
-		case 1: // any pair from the pools: mostly undeclared
-			s.DB, s.RP = rapid.SampledFrom(dbPool).Draw(t, "srcDB"), rapid.SampledFrom(rpPool).Draw(t, "srcRP")
-		case 2: // declared database, other retention policy
-			s.DB, s.RP = c.Declared[0].DB, rapid.SampledFrom(rpPool).Draw(t, "srcRP")
-		case 3: // db and rp both declared, but possibly not as a pair
-			s.DB = c.Declared[rapid.IntRange(0, ndecl-1).Draw(t, "srcDBi")].DB
-			s.RP = c.Declared[rapid.IntRange(0, ndecl-1).Draw(t, "srcRPi")].RP
-		}
-		s.Form = "full"
-		if !onlyDeclared {
-			s.Form = []string{"full", "norp", "bare"}[wpick(t, "srcForm", 48, 1, 1)]
-		}
-		if wpick(t, "srcRegex", 5, 1) == 1 {
-			s.Regex, s.Name = true, rapid.SampledFrom(measRegex).Draw(t, "measRe")
-		} else {
-			s.Name = rapid.SampledFrom(measPool).Draw(t, "meas")
-		}
-		c.Sources = append(c.Sources, s)
+		c.Sources = append(c.Sources, genPlainSrc(t, c, onlyDeclared, w))
 	}
+	// a subquery in the place of one source (the other, if any, stays a plain one): its
+	// measurements sit one or two levels down, declared or not
+	if !onlyDeclared && wpick(t, "subquery", 11, 1) == 1 {
+		i := rapid.IntRange(0, nsrc-1).Draw(t, "subAt")
+		c.Sources[i] = Src{Form: "sub", Sub: genSubQ(t, c, 1+wpick(t, "subDepth", 1, 1))}
+	}
+}
+
+// genPlainSrc draws a measurement source; w: weights of (declared pair | any pair from the
+// pools | declared database, other retention policy | database and retention policy both
+// declared, possibly not as a pair).
+func genPlainSrc(t *rapid.T, c *Case, onlyDeclared bool, w []int) Src {
+	var s Src
+	ndecl := len(c.Declared)
+	switch wpick(t, "srcKind", w...) {
+	case 0:
+		d := c.Declared[rapid.IntRange(0, ndecl-1).Draw(t, "srcDecl")]
+		s.DB, s.RP = d.DB, d.RP
+	case 1: // any pair from the pools: mostly undeclared
+		s.DB, s.RP = rapid.SampledFrom(dbPool).Draw(t, "srcDB"), rapid.SampledFrom(rpPool).Draw(t, "srcRP")
+	case 2: // declared database, other retention policy
+		s.DB, s.RP = c.Declared[0].DB, rapid.SampledFrom(rpPool).Draw(t, "srcRP")
+	case 3: // db and rp both declared, but possibly not as a pair
+		s.DB = c.Declared[rapid.IntRange(0, ndecl-1).Draw(t, "srcDBi")].DB
+		s.RP = c.Declared[rapid.IntRange(0, ndecl-1).Draw(t, "srcRPi")].RP
+	}
+	s.Form = "full"
+	if !onlyDeclared {
+		s.Form = []string{"full", "norp", "bare"}[wpick(t, "srcForm", 48, 1, 1)]
+	}
+	if wpick(t, "srcRegex", 5, 1) == 1 {
+		s.Regex, s.Name = true, rapid.SampledFrom(measRegex).Draw(t, "measRe")
+	} else {
+		s.Name = rapid.SampledFrom(measPool).Draw(t, "meas")
+	}
+	return s
+}
+
+var (
+	subFields  = []string{`max("value") AS "value"`, `"value"`, `mean("value") AS "value", count("b") AS "b"`, `*`}
+	subWheres  = []string{"", "", ` WHERE "host" = 'serverA'`, ` WHERE "usage_idle" > 10 OR "cpu" = 'cpu-total'`}
+	subGroupBy = []string{"", ` GROUP BY "host"`, ` GROUP BY *`}
+)
+
+// genSubQ draws a subquery of the given depth (1: measurements only; 2: one of its sources is
+// a subquery again). Its measurements are declared pairs and undeclared ones in equal parts.
+func genSubQ(t *rapid.T, c *Case, depth int) *SubQ {
+	q := &SubQ{
+		Fields:  rapid.SampledFrom(subFields).Draw(t, "subFields"),
+		Where:   rapid.SampledFrom(subWheres).Draw(t, "subWhere"),
+		GroupBy: rapid.SampledFrom(subGroupBy).Draw(t, "subGroupBy"),
+	}
+	n := 1 + wpick(t, "subTwoSources", 2, 1)
+	for i := 0; i < n; i++ {
+		q.Sources = append(q.Sources, genPlainSrc(t, c, false, []int{4, 2, 1, 1}))
+	}
+	if depth > 1 {
+		q.Sources[rapid.IntRange(0, n-1).Draw(t, "subSubAt")] = Src{Form: "sub", Sub: genSubQ(t, c, depth-1)}
+	}
+	return q
 }
 
 func genWhere(t *rapid.T, rec *kit.Rec, c *Case, instant func() int64) {
@@ -553,6 +602,12 @@ func (s Src) text() string {
 		name = "/" + s.Name + "/"
 	}
 	switch s.Form {
+	case "sub":
+		var srcs []string
+		for _, in := range s.Sub.Sources {
+			srcs = append(srcs, in.text())
+		}
+		return "(SELECT " + s.Sub.Fields + " FROM " + strings.Join(srcs, ", ") + s.Sub.Where + s.Sub.GroupBy + ")"
 	case "norp":
 		return quoteIdent(s.DB) + ".." + name
 	case "bare":
@@ -830,6 +885,7 @@ func (c Case) sourcesVerdict() (int, string) {
 	v, why := 1, ""
 	for _, s := range c.Sources {
 		switch s.Form {
+		case "sub": // judged on the emitted queries (see subqueryCase)
 		case "bare":
 			if v == 1 {
 				v = 0
@@ -845,6 +901,90 @@ func (c Case) sourcesVerdict() (int, string) {
 		}
 	}
 	return v, why
+}
+
+func (s Src) subDepth() int {
+	if s.Form != "sub" {
+		return 0
+	}
+	d := 0
+	for _, in := range s.Sub.Sources {
+		if x := in.subDepth(); x > d {
+			d = x
+		}
+	}
+	return d + 1
+}
+
+// undeclaredSources walks the sources of a (re-parsed) statement to any depth and returns the
+// measurements that read from a (db, rp) pair the task did not declare; a measurement that
+// omits the retention policy counts as undeclared, one without a database is skipped (both
+// as for top-level sources, see sourcesVerdict). n: the measurements seen.
+func undeclaredSources(srcs influxql.Sources, declared []kapacitor.DBRP) (bad []string, n int) {
+	decl := kapacitor.CreateDBRPMap(declared)
+	var walk func(influxql.Sources)
+	walk = func(srcs influxql.Sources) {
+		for _, s := range srcs {
+			switch s := s.(type) {
+			case *influxql.Measurement:
+				n++
+				if s.Database == "" && s.RetentionPolicy == "" {
+					continue
+				}
+				if !decl[kapacitor.DBRP{Database: s.Database, RetentionPolicy: s.RetentionPolicy}] {
+					bad = append(bad, s.String())
+				}
+			case *influxql.SubQuery:
+				walk(s.Statement.Sources)
+			}
+		}
+	}
+	walk(srcs)
+	return bad, n
+}
+
+// subqueryCase judges a statement one of whose sources is a subquery. Such a statement may
+// be refused (as built every subquery source is: "unknown query source"). If BatchQueries
+// hands out queries, every measurement at any depth of every one of them must be a declared
+// (db, rp) pair; if StartBatching starts the task, the same holds for the statement it will
+// send (the user's: sources are never rewritten), and otherwise nothing may reach InfluxDB.
+// Nothing else is asserted about such queries (their time range is not judged here).
+func (c Case) subqueryCase(cc *kit.Case, et *kapacitor.ExecutingTask, fake *fakeClient, userSel *influxql.SelectStatement, bqs []kapacitor.BatchQueries, qerr error) {
+	userQ := c.userQuery()
+	if qerr != nil {
+		cc.Label("dbrp:subquery-source/refused-by-batch-queries")
+	} else {
+		cc.Label("dbrp:subquery-source/accepted-by-batch-queries")
+		for _, bq := range bqs {
+			for i, q := range bq.Queries {
+				em, err := parseSelect(q.String())
+				if err != nil {
+					cc.Fail("query/unparsable", "%s\nBatchQueries query %d %q does not parse: %v", c.script(), i, q.String(), err)
+					return
+				}
+				if bad, _ := undeclaredSources(em.Sources, c.declared()); len(bad) > 0 {
+					cc.Fail("dbrp/undeclared-accepted/subquery/batch-queries", "declared %v, query %q: BatchQueries returned no error and query %d\n    %s\nreads, through a subquery, from %v, which the task did not declare",
+						c.Declared, userQ, i, q.String(), bad)
+					return
+				}
+			}
+		}
+	}
+	if c.ReplayPath {
+		return
+	}
+	bad, _ := undeclaredSources(userSel.Sources, c.declared())
+	if err := et.StartBatching(); err != nil {
+		cc.Label("dbrp:subquery-source/refused-by-start-batching")
+		if n := fake.count(); n != 0 {
+			cc.Fail("dbrp/undeclared-queried", "declared %v, query %q: StartBatching failed (%v) but %d queries reached InfluxDB", c.Declared, userQ, err, n)
+		}
+		return
+	}
+	cc.Label("dbrp:subquery-source/accepted-by-start-batching")
+	if len(bad) > 0 {
+		cc.Fail("dbrp/undeclared-accepted/subquery/start-batching", "declared %v, query %q reads, through a subquery, from %v, which the task did not declare: StartBatching returned no error", c.Declared, userQ, bad)
+	}
 }
 
 // declaredDB: the task declared some retention policy of the database.
@@ -964,7 +1104,23 @@ func run(c Case, cc *kit.Case) {
 		cc.Label("tail")
 	}
 	verdict, why := c.sourcesVerdict()
+	subDepth := 0
+	for _, src := range c.Sources {
+		if d := src.subDepth(); d > subDepth {
+			subDepth = d
+		}
+	}
 	switch {
+	case subDepth > 0:
+		cc.Label(fmt.Sprintf("dbrp:subquery-source/depth=%d", subDepth))
+		if len(c.Sources) > 1 {
+			cc.Label("dbrp:subquery-source/beside-a-measurement")
+		}
+		if bad, _ := undeclaredSources(userSel.Sources, c.declared()); len(bad) > 0 {
+			cc.Label("dbrp:subquery-source/reads-undeclared")
+		} else {
+			cc.Label("dbrp:subquery-source/all-declared")
+		}
 	case verdict == 1:
 		cc.Label("dbrp:declared")
 	case verdict == -1 && why == "omitted-rp":
@@ -1026,6 +1182,10 @@ func run(c Case, cc *kit.Case) {
 	bqs, qerr := et.BatchQueries(start, stop)
 
 	// ---- a task may only query what it declared
+	if subDepth > 0 {
+		c.subqueryCase(cc, et, fake, userSel, bqs, qerr)
+		return
+	}
 	if verdict == -1 {
 		sigBase, reason := "dbrp/undeclared-accepted", "names a (db, rp) pair the task did not declare"
 		if why == "omitted-rp" {
@@ -1414,10 +1574,11 @@ var assumptions = []string{
 	"a WHERE clause is read the way InfluxQL reads it (influxql.ConditionExpr, trusted base): time comparisons anywhere in the tree are promoted to one time range and removed from the condition; the strict boolean reading of the emitted text is reported as a label only",
 	"ticks of a span are those in (start, stop]: the first tick of every() is start+every; under align() the ticks are the multiples of every (Go time.Truncate grid) after start, as a live task started at 'start' produces them",
 	"cron schedules are limited to a family whose occurrences are (t + zone offset) % M == R in unix seconds; the process's local zone is UTC or a generated fixed-offset zone (time.Local is set per case; no daylight-saving transitions)",
-	"GROUP BY is written in .groupBy() and fill in .fill() (pipeline/batch.go: the query text must not contain a GROUP BY clause); sub-queries are not generated (BatchQueries rejects them: their db/rp cannot be determined)",
+	"GROUP BY is written in .groupBy() and fill in .fill() (pipeline/batch.go: the query text must not contain a GROUP BY clause); a GROUP BY inside a subquery source is the subquery's own",
 	"alignGroup(): the emitted group-by offset must make the interval boundaries coincide with the query's start time; with a user offset both 'aligned' and 'aligned plus the user offset' are accepted",
 	"a fully qualified source must be one of the declared (db, rp) pairs, compared exactly (client/API.md: dbrps is the 'list of database retention policy pairs the task is allowed to access')",
 	"a source that names the database but omits the retention policy (\"db\"..m) must be rejected by BatchQueries and StartBatching whatever other retention policies of db the task declared: InfluxDB answers it from the database's default retention policy, which Kapacitor does not know (the fake InfluxDB of the harness reports no retention policies, so the default is never a declared one); the generator never declares a pair with an empty retention policy (the kapacitor CLI refuses one: 'dbrp must specify retention policy'); the emitted sources are asserted to be the user's unchanged, so the check is the only guard",
+	"a statement with a subquery source, FROM (SELECT ...), may be refused (as built every one is: Query.DBRPs 'unknown query source'); if BatchQueries hands out queries, every measurement at any depth of every re-parsed query must be a declared (db, rp) pair, and if StartBatching starts the task the same must hold for the user's statement (sources are sent as written), otherwise no query may reach InfluxDB; nothing else (time range, group by) is judged for such statements",
 	"a source without a database (m) may be accepted or rejected (QueryNode.doQuery sends the statement without a database parameter, so no database is read)",
 	"every leaf of the generated WHERE tree has its own tag/field key, so every truth assignment of the leaves is realisable by a row",
 	"spans lie in the past (the 'query stop is after now' cut-off of BatchQueries is not exercised) and stop is not the zero time",
